@@ -123,6 +123,8 @@ pub fn run(cfg: Config) -> i32 {
     success_grid(&mut m, &cfg);
     zoo_mixtures(&mut m, &cfg);
     diagrams(&mut m, &cfg);
+    crate::c05_hetero::run(&mut m, &cfg);
+    m.gate(m.clause_checked("hetero:isofugacity in all three phases") >= 30, "fewer than 30 heteroazeotropes observed");
     m.gate(m.clause_checked("success:bubble point") >= 500, "success grid too small");
     m.gate(m.clause_checked("flash:component balance") >= 300, "fewer than 300 converged flashes");
     m.gate(m.clause_checked("phases:isofugacity") >= 2000, "fewer than 2000 equilibria observed");
